@@ -17,7 +17,11 @@ Optional keys: `reset` (the `op` understands {"reset": true}: `_reset_state()` i
 plugin records `<lang>_after_reset`), `is_op_text` (text of the operator piece the model prints for `is` / `!is`,
 check_C12 leg K5), `sem_op` absent = no K4 leg.
 `state_attrs`: attribute names of the real translator object compared with the model's state
-(`_nodes_stack` is compared by length only: frames are summaries)."""
+(`_nodes_stack` is compared by length only: frames are summaries).
+`visit_states` (optional): the hand-set states of the visit leg, as request fields of `visit_op` named after the
+attributes of the real object (default: the three Kotlin states of check_C11.VISIT_STATES); the real side of the leg is
+a block of harness/c11_plugin.py producing `<lang>_visit`.  `doc_op`/`inv_op`/`sem_op` are optional: without them
+check_C12 compares the text only."""
 
 LANGS = ("java", "kotlin", "groovy", "scala")
 
@@ -48,6 +52,23 @@ MODELS = {
         "model": "lean/Heph/Model/TransScala.lean",
         "decl_tags": ["class", "tparam", "field", "func", "param", "var", "super", "varannot", "retannot",
                       "targs", "new"],
+    },
+    "groovy": {
+        "op": "trans.groovy",
+        "visit_op": "trans.groovy.visit",
+        "state_op": "trans.groovy.state",
+        "state_attrs": ["ident", "is_unit", "_cast_number", "_namespace", "_inside_is", "_inside_is_function",
+                        "_children_res", "_main_children", "_main_method", "_function_interfaces",
+                        "always_cast_numbers", "always_cast_ftypes"],
+        "visit_states": [
+            {"ident": 0, "is_unit": False, "_cast_number": False, "_inside_is": False, "_inside_is_function": False,
+             "_namespace": ["global"]},
+            {"ident": 4, "is_unit": True, "_cast_number": True, "_inside_is": True, "_inside_is_function": False,
+             "_namespace": ["global", "zz"]},
+            {"ident": 2, "is_unit": False, "_cast_number": True, "_inside_is": True, "_inside_is_function": True,
+             "_namespace": ["global"]},
+        ],
+        "model": "lean/Heph/Model/TransGroovy.lean",
     },
 }
 
